@@ -96,6 +96,14 @@ def run_shorthand(case):
     exact = I.is_canonical(name)
     pc0 = P.pc(name)
 
+    # first, the same degree under loosely spelled shorthands, which the library accepts ('M3', 'm7', 'P5'): their
+    # results are not judged, but they must not colour what is asked afterwards
+    digit = sh[-1]
+    for loose in ("M" + digit, "m" + digit, "P" + digit):
+        try:
+            intervals.from_shorthand(name, loose)
+        except Exception:                               # noqa
+            pass
     up = intervals.from_shorthand(name, sh)
     up2 = intervals.from_shorthand(name, sh, True)
     down = intervals.from_shorthand(name, sh, False)
@@ -126,6 +134,80 @@ def run_shorthand(case):
                       detail={"up": up})
     if sh in ("b#3", "##7") and len(name) == 2:
         S.sample(case)
+    # naming and application are mutually inverse *in this order too*: name the interval that was just applied
+    # (also after it was applied under a loosely spelled shorthand, which the library accepts: 'M3', 'm7', 'P5')
+    if P.is_name(up) and 0 <= P.span_distance(name, up) <= 11:
+        named = intervals.determine(name, up, True)
+        S.trans(4)
+        parsed = I.parse_shorthand(named)
+        if parsed is None or parsed[0] != num:
+            S.problem("determine(%r, %r, True) right after from_shorthand(%r, %r)" % (name, up, name, sh),
+                      "accidentals followed by the degree %d" % num, named)
+        else:
+            again = intervals.from_shorthand(name, named)
+            if not (isinstance(again, str) and I.same_note(again, up)):
+                S.problem("from_shorthand(%r, determine(%r, %r, True))" % (name, name, up), up, again, detail={"shorthand": named})
+    # the answers are a function of the arguments, whatever else was asked just before about the same note
+    for cname in I.CONSTRUCTOR_NAMES:
+        try:
+            getattr(intervals, cname)(name)
+        except Exception:                               # noqa -- the constructors are C02's subject
+            continue
+        a_up = intervals.from_shorthand(name, sh)
+        a_down = intervals.from_shorthand(name, sh, False)
+        S.trans(3)
+        if a_up != up or a_down != down:
+            S.problem("from_shorthand(%r, %r) up/down asked again right after intervals.%s(%r)" % (name, sh, cname, name),
+                      [up, down], [a_up, a_down])
+            break
+
+
+BAD_SUFFIXES = ["s", "+", "x#", "#x", "h", "-4"]
+
+
+def run_after_refusal(letter):
+    """Cold start; the first thing asked about this letter are refused calls (malformed names starting with it)
+    on every named constructor and on from_shorthand/determine; afterwards every shorthand on every spelling of
+    the letter must still be applied correctly."""
+    S = engine.S
+    import importlib
+    importlib.reload(intervals)
+    n = 0
+    for suf in BAD_SUFFIXES:
+        bad = letter + suf
+        for cname in I.CONSTRUCTOR_NAMES:
+            try:
+                getattr(intervals, cname)(bad)
+            except Exception:                           # noqa -- how a malformed name is refused is C02's subject
+                pass
+            n += 1
+        for fn, args in ((intervals.from_shorthand, (bad, "3")), (intervals.determine, (bad, "C")), (intervals.determine, ("C", bad, True))):
+            try:
+                fn(*args)
+            except Exception:                           # noqa
+                pass
+            n += 1
+    S.count("refusals_made", n)
+    for acc in ("", "#", "b", "##", "bb"):
+        name = letter + acc
+        pc0 = P.pc(name)
+        for sh in P.SH35:
+            num, semis = P.shorthand_semitones(sh)
+            for up in (True, False):
+                try:
+                    r = intervals.from_shorthand(name, sh, up)
+                except Exception as e:                  # noqa
+                    S.problem("from_shorthand(%r, %r, %r) after refused calls on letter %s" % (name, sh, up, letter), "a note name", e)
+                    return
+                S.trans(1)
+                wantL = P.letter_up(name[0], (num - 1) if up else -(num - 1))
+                wantpc = (pc0 + (semis if up else -semis)) % 12
+                if not P.is_name(r) or r[0] != wantL or P.pc(r) != wantpc:
+                    S.problem("from_shorthand(%r, %r, %r) after refused calls on letter %s" % (name, sh, up, letter),
+                              {"letter": wantL, "pc": wantpc}, r)
+                    return
+    S.outcome((letter, "ok"))
+    S.count("letters_checked_after_refusals")
 
 
 def run_invert(lst):
@@ -151,6 +233,7 @@ CLAUSES = {
     "determine": run_determine,
     "shorthand": run_shorthand,
     "invert": run_invert,
+    "after_refusal": run_after_refusal,
 }
 
 _PAIR_NAMES = [[]]
@@ -207,7 +290,11 @@ def explore(ctx):
         ctx.bound("invert_alphabet", INVERT_NAMES)
         ctx.bound("invert_max_length", n)
         ctx.serial("invert", [list(t) for m in range(n + 1) for t in itertools.product(INVERT_NAMES, repeat=m)])
+    if ctx.want("after_refusal"):
+        # one worker process per letter: the refusals really are the first thing that process asks about it
+        ctx.product("after_refusal", list("CDEFGAB"), lambda L: [L])
     if not ctx.only:
+        ctx.guard("letters checked after refusals", ctx.counter("letters_checked_after_refusals"), 7)
         ctx.guard("pairs in scope", ctx.counter("pairs_in_scope"), 500)
         ctx.guard("pairs out of scope (skipped)", ctx.counter("pairs_out_of_scope"), 1)
         ctx.guard("unison pairs in scope", ctx.counter("unison_pairs_in_scope"), 50)
